@@ -400,7 +400,7 @@ pub fn run(cx: &mut Ctx) {
         });
     }
     // ---- random conforming streams (+ prefixes / corruptions)
-    let n = cx.a.n(30_000, 500_000);
+    let n = cx.a.n(100_000, 1_500_000);
     let quick = cx.a.quick();
     for i in 0..n {
         cx.case("random_tokens", |c| {
@@ -449,7 +449,7 @@ pub fn run(cx: &mut Ctx) {
             }
         });
     }
-    let n = cx.a.n(20_000, 300_000);
+    let n = cx.a.n(60_000, 1_000_000);
     for _ in 0..n {
         cx.case("random_bytes", |c| {
             c.sit("random_bytes");
